@@ -19,7 +19,7 @@ CHECKS.update({
          "All patterns up to length 3 (quick) / 5 (thorough) over a 9-symbol alphabet x all subjects up to length 3/4, all short extglob patterns, 20k+ grammar-generated well-formed patterns, each decided by the harness's reference matcher with bash as arbiter; plus case/[[ ]]/${s#p} contexts and pathname expansion on generated trees vs bash. Exhaustive within the stated bounds (evidence marks which layers), exploration beyond.",
          "reference matcher trusted only where bash agrees (every mismatch re-checked against bash; 1/97 of agreeing pairs cross-checked); LC_ALL=C.utf8; collation-dependent ranges excluded", "DESIGN.md §3 C08 (design) and §8 (as built)"),
  "C19": ("bounded-exhaustive enumeration + random fragment concatenation, invariant oracle (in process)",
-         "Every line over a 22-symbol metacharacter alphabet up to length 3 (quick) / 5 (thorough) and 10^5-10^6 random concatenations of shell fragments, each with every cursor on a character boundary, checked against the tiling invariant (ordered, contiguous, char-aligned spans covering the line; concatenation reproduces it; no panic). Exhaustive within the length bound, exploration beyond.",
+         "Every line over a 22-symbol metacharacter alphabet up to length 4 (quick) / 5 (thorough) and 4x10^5 / 2x10^6 random concatenations of shell fragments, each with every cursor on a character boundary, checked against the tiling invariant (ordered, contiguous, char-aligned spans covering the line; concatenation reproduces it; no panic). Exhaustive within the length bound, exploration beyond.",
          "highlighter called on a clone of a default Shell with default builtins; debug assertions on", "DESIGN.md §3 C19 (design) and §8 (as built)"),
 })
 
